@@ -1,12 +1,10 @@
 package pslice
 
 import (
-	"encoding/json"
 	"fmt"
 	"runtime"
 	"runtime/debug"
 	"sync"
-	"sync/atomic"
 	"testing"
 
 	"pgregory.net/rapid"
@@ -36,24 +34,6 @@ type slot interface {
 	Leave()
 }
 
-// liveCase is what a worker hands to its watchdog slot: it serialises as the
-// case the worker is executing at the moment it is looked at.  This lets a
-// worker enter its slot once per block of cases (Enter reads the process CPU
-// time, a system call that serialises the workers when made per microsecond
-// case) while a hang is still reported with the very case that hangs.
-type liveCase[C any] struct{ cur atomic.Pointer[C] }
-
-func (l *liveCase[C]) MarshalJSON() ([]byte, error) { return json.Marshal(l.cur.Load()) }
-
-const slotBlock = 256 // cases per Enter/Leave of the watchdog slot
-
-// blockCount counts the cases a worker has run since it entered its slot
-// (0 = not entered); padded to a cache line of its own.
-type blockCount struct {
-	n int
-	_ [56]byte
-}
-
 type exhRunner[C any] struct {
 	h        *vk.H
 	t        *testing.T
@@ -62,8 +42,6 @@ type exhRunner[C any] struct {
 	tl       []*vk.Tally
 	cls      [][32]int64
 	slots    []slot
-	live     []*liveCase[C]
-	inBlk    []blockCount
 	oldGC    int
 	oldLimit int64
 
@@ -75,7 +53,7 @@ type exhRunner[C any] struct {
 
 func newExh[C any](h *vk.H, t *testing.T, names []string, check func(C) (info, string)) *exhRunner[C] {
 	w := runtime.GOMAXPROCS(0)
-	e := &exhRunner[C]{h: h, t: t, names: names, check: check, cls: make([][32]int64, w), inBlk: make([]blockCount, w)}
+	e := &exhRunner[C]{h: h, t: t, names: names, check: check, cls: make([][32]int64, w)}
 	// The live heap is tiny and every case allocates a little, so with the
 	// default setting the collector runs thousands of times per second and
 	// its pauses serialise the workers.  Collect by a soft memory limit
@@ -85,7 +63,6 @@ func newExh[C any](h *vk.H, t *testing.T, names []string, check func(C) (info, s
 	for i := 0; i < w; i++ {
 		e.tl = append(e.tl, vk.NewTally())
 		e.slots = append(e.slots, h.Slot())
-		e.live = append(e.live, &liveCase[C]{})
 	}
 	return e
 }
@@ -102,19 +79,13 @@ func (e *exhRunner[C]) level(n int, decode func(i int) (C, bool)) bool {
 			return
 		}
 		var in info
-		e.live[w].cur.Store(&c)
-		if e.inBlk[w].n == 0 {
-			e.slots[w].Enter(e.live[w])
-		}
+		e.slots[w].Enter(c)
 		msg := vk.Guard(func() string {
 			var m string
 			in, m = e.check(c)
 			return m
 		})
-		if e.inBlk[w].n++; e.inBlk[w].n >= slotBlock {
-			e.slots[w].Leave()
-			e.inBlk[w].n = 0
-		}
+		e.slots[w].Leave()
 		if msg != "" {
 			p := e.h.Fail(c, msg)
 			sz := len(fmt.Sprintf("%+v", c))
@@ -139,12 +110,6 @@ func (e *exhRunner[C]) level(n int, decode func(i int) (C, bool)) bool {
 			e.h.Sample(c, in.nt)
 		}
 	})
-	for w := range e.slots {
-		if e.inBlk[w].n != 0 {
-			e.slots[w].Leave()
-			e.inBlk[w].n = 0
-		}
-	}
 	return !e.h.Failed()
 }
 
